@@ -368,9 +368,12 @@ class Compiler(compiler.Compiler):
             compiled = Dict(name, members)
         else:
             if type_name in self.types_backtrace:
+                # The module the type is defined in, which is not
+                # this module if the type is imported.
                 compiled = Recursive(name,
                                      type_name,
-                                     module_name)
+                                     self.get_module_name(type_descriptor,
+                                                          module_name))
                 self.recursive_types.append(compiled)
             else:
                 compiled = self.compile_user_type(name,
